@@ -239,8 +239,8 @@ def run(tier, only=None):
     design_check(tier, cov)
     seed = core.seed()
     results = []
-    ndecl = 300 if tier == "quick" else 3000
-    nc03 = 200 if tier == "quick" else 2500
+    ndecl = 200 if tier == "quick" else 3000
+    nc03 = 120 if tier == "quick" else 2500
     if only in (None, "decls"):
         results += [r for part in core.pool_map(
             _work_decl, list(c04_gen.decl_programs(ndecl, seed))) for r in part]
